@@ -880,10 +880,16 @@ class ParameterSet(
         # Validate the request before any change is made, so that a rejected
         # request leaves this parameter set untouched.
         for param in self._params:
-            if (param.name in fix_params_keys) and (param.isfixed is True):
-                raise ValueError(
-                    f'The parameter "{param.name}" is already a fixed '
-                    'parameter!')
+            if param.name in fix_params_keys:
+                if param.isfixed is True:
+                    raise ValueError(
+                        f'The parameter "{param.name}" is already a fixed '
+                        'parameter!')
+                float_cast(
+                    fix_params[param.name],
+                    f'The value for the parameter "{param.name}" must be '
+                    'castable to type float!',
+                    allow_None=True)
 
         self._fixed_param_name_list = []
         self._floating_param_name_list = []
